@@ -8,6 +8,7 @@
 #include "parsec/parsec_internal.h"
 #include "parsec/scheduling.h"
 #include "parsec/utils/debug.h"
+#include "parsec/mca/termdet/termdet.h"
 
 /**
  * A compound is a list of taskpool that need to be executed sequentially
@@ -52,6 +53,9 @@ parsec_compound_taskpool_startup( parsec_context_t *context,
 
     compound->ctx = context;
     compound->super.tdm.module->taskpool_set_runtime_actions(&compound->super, compound->nb_taskpools);
+    /* The composed taskpools are now accounted for: the compound can be declared ready,
+     * its termination will be detected when the last of them completes. */
+    compound->super.tdm.module->taskpool_ready(&compound->super);
     PARSEC_DEBUG_VERBOSE(30, parsec_debug_output, "Compound taskpool %p starting with %d taskpools",
                          compound, compound->nb_taskpools);
     for( int i = 0; i < compound->nb_taskpools; i++ ) {
@@ -119,6 +123,12 @@ parsec_compose( parsec_taskpool_t* start,
                              compound, compound->nb_taskpools, next );
     } else {
         compound = PARSEC_OBJ_NEW(parsec_compound_taskpool_t);
+        /* Install the termination detection now. Otherwise parsec_context_add_taskpool installs
+         * it and declares the taskpool ready before the startup hook has registered the composed
+         * taskpools as pending actions: the compound would complete (completion callback,
+         * parsec_taskpool_wait) before the first of them has even started. */
+        parsec_termdet_open_module(&compound->super, "local");
+        compound->super.tdm.module->monitor_taskpool(&compound->super, parsec_taskpool_termination_detected);
 
         asprintf(&compound->super.taskpool_name, "Compound Taskpool %d", next->taskpool_id);
 
